@@ -62,6 +62,9 @@ class C17(Plugin):
             for _ in range(6):
                 p = rng.choice(known) if rng.random() < 0.75 else rng.choice(UNKNOWN)
                 ident = "/".join(segment(rng, d) for _ in range(rng.choice([1, 1, 2, 3, 4])))
+                if d != "/" and rng.random() < 0.12:
+                    # an identifier that itself begins with a prefix and the delimiter (GO:GO:0032571, go:GO:1): data like any other
+                    ident = rng.choice([p, p.swapcase(), rng.choice(known)]) + d + ident
                 paths.append(p + d + ident)
             # staging: the app is built when only the first `early` records are registered; the requests are sent, the remaining
             # records arrive through add_prefix on the live converter, and the same requests are sent again (a resolver serves a
